@@ -1,5 +1,6 @@
 import Driver.Common
 import FontcModel.FeatVars
+import FontcModel.FeatVarsFixed
 
 namespace Fontc.Driver.C16
 open Fontc Fontc.FeatVars Fontc.Driver
@@ -131,11 +132,24 @@ def handle : Handler := fun s =>
         some (some (← parseImplOut n maps (← impl.field1? "out")))
     -- models
     let cs := mergeSameRegionRules (mergeSameSubRules rules)
-    let wOut := overlayCore wordOps n cs
     let nOut := overlayCore natOps n cs
-    let csBoxes := cs.flatMap (·.1)
-    let inBoxes := rules.flatMap (·.1)
-    let pts := samplePoints inBoxes 300
+    let csBoxes0 := cs.flatMap (·.1)
+    let pts0 := samplePoints (rules.flatMap (·.1)) 300
+    -- the literal model: the code's word-vector rank as it is on the pinned tree, or — if that does not
+    -- reproduce the implementation — as it reads after fixes/C16-rank.patch
+    let agrees (m : Option (List (NBox × List Subs))) : Bool :=
+      match implOut, m with
+      | none, none => true
+      | some i, some w => pts0.all fun p => firstMatch w p == firstMatch i p
+      | _, _ => false
+    let wCur := overlayCore wordOps n cs
+    let (wOut, opsTag) :=
+      if agrees wCur then (wCur, "rank-ops-current")
+      else
+        let wFix := overlayCore wordOpsFixed n cs
+        if agrees wFix then (wFix, "rank-ops-fixed") else (wCur, "rank-ops-current")
+    let csBoxes := csBoxes0
+    let pts := pts0
     let keys := keysOf rules
     let emptyRegion := rules.any fun r => r.1.isEmpty
     let nMerged := cs.length
@@ -143,7 +157,7 @@ def handle : Handler := fun s =>
         (if rules.length ≤ 6 then "rules1-6" else if rules.length ≤ 20 then "rules7-20"
          else if rules.length ≤ 64 then "rules21-64" else "rules65+"),
         (if nMerged ≥ 65 then "merged65+" else "merged<65")] ++
-      (if nMerged < rules.length then ["merged-some"] else []) ++
+      (if nMerged < rules.length then ["merged-some"] else []) ++ (if nMerged ≥ 65 then [opsTag] else []) ++
       (if emptyRegion then ["empty-region"] else [])
     match implOut, wOut with
     | none, none =>
